@@ -133,3 +133,57 @@ Proof.
   - vm_compute. repeat constructor; discriminate.
   - vm_compute. reflexivity.
 Qed.
+
+(* ---- known finding C16-K1: the second row of the repository's csv_multi_currency golden.
+   23.45 CHF credited at the stated rate 114.0500 JPY with the bank's rounded 2675 JPY as the
+   secondary amount: every hypothesis of C16_statement_accepted holds except that the printed
+   transaction balances, and the book-keeping refuses it ---- *)
+Definition s_jpy : str := [74;80;89].
+Definition s_wire : str := [65;115;115;101;116;115;58;87;105;114;101].
+Definition ex_rounded_row : row_data :=
+  {| rd_date := 5%Z; rd_payee := s_migros; rd_amount := {| d_neg := false; d_mag := of_dec 2345 2 |};
+     rd_balance := Some {| d_neg := false; d_mag := of_dec 2345 2 |};
+     rd_secondary_amount := Some {| d_neg := false; d_mag := of_dec 2675 0 |};
+     rd_secondary_commodity := None; rd_category := None; rd_commodity := s_chf;
+     rd_rate := Some {| d_neg := false; d_mag := of_dec 1140500 4 |}; rd_note := None; rd_charge := None |}.
+Definition ex_rounded_cfg : entry str :=
+  {| e_path := []; e_encoding := 0; e_account := s_bank; e_account_type := Asset; e_operator := None;
+     e_commodity := {| cs_primary := s_jpy; cs_conversion := conv_default |};
+     e_format := format_default;
+     e_rewrite := [ {| r_matcher := [[(RPayee, s_mig)]]; r_pending := false; r_payee := None;
+                       r_account := Some s_wire;
+                       r_conversion := Some {| cv_amount := Extract; cv_commodity := Some s_jpy;
+                                               cv_rate := PriceOfPrimary; cv_disabled := false |} |} ] |}.
+Definition ex_rounded_txn : txn :=
+  match build_txn lit_captures ex_rounded_cfg ex_rounded_row with
+  | IOk t => t
+  | _ => txn_new 0%Z [] {| oa_value := dec_zero; oa_commodity := [] |}
+  end.
+Definition ex_rounded_opening : list (str * dec) := [(s_chf, dec_zero)].
+
+Example ex_rounded_built : build_txn lit_captures ex_rounded_cfg ex_rounded_row = IOk ex_rounded_txn.
+Proof. vm_compute. reflexivity. Qed.
+
+Example ex_rounded_hyps :
+  str_code s_equity <> str_code s_bank
+  /\ Forall (fun cv => fst cv <> []) ex_rounded_opening
+  /\ Forall (names_ok) (st_posts (to_double_entry ex_rounded_txn s_bank))
+  /\ Forall cost_ok (map (pp_of str_code str_code) (st_posts (to_double_entry ex_rounded_txn s_bank)))
+  /\ elsewhere str_code s_bank ex_rounded_txn
+  /\ consistent str_code (opening str_code ex_rounded_opening) [ex_rounded_txn].
+Proof.
+  split; [vm_compute; discriminate|]. split; [repeat constructor; discriminate|].
+  split; [vm_compute; repeat constructor; discriminate|].
+  split; [vm_compute; repeat constructor; discriminate|].
+  split; [split; [vm_compute; discriminate|intros H; vm_compute in H; congruence]|].
+  vm_compute ex_rounded_txn. unfold consistent, txn_assert. cbn [t_balance].
+  split; [|exact I]. apply qc_by_compute. vm_compute. reflexivity.
+Qed.
+
+Example ex_rounded_refused :
+  exists r,
+    fst (Book.process (book_entries str_code str_code
+           (funding s_bank s_equity (-1)%Z ex_rounded_opening
+            ++ map (fun t => to_double_entry t s_bank) [ex_rounded_txn])))
+    = Book.Err (Book.UnbalancedPostings r).
+Proof. eexists. vm_compute. reflexivity. Qed.
